@@ -487,7 +487,15 @@ class Base(_BaseClass):
             for token in fulltokenizer:
                 p = prods.get(token[0], default)
                 if p:
-                    expected = p(expected, seq, token, tokenizer)
+                    try:
+                        expected = p(expected, seq, token, tokenizer)
+                    except RecursionError:
+                        # nested deeper than the interpreter allows: what was
+                        # being parsed is dropped like any other syntax error
+                        wellformed = False
+                        self._log.error(
+                            'Nesting too deep, ignoring: (%s, %s, %s, %s)' % token
+                        )
                 else:
                     wellformed = False
                     self._log.error('Unexpected token (%s, %s, %s, %s)' % token)
